@@ -366,6 +366,7 @@ func init() {
 			genHistory(g, w, t, histOpts{steps: 8 + g.Intn(tierN(tier, 30, 300)), copies: true})
 		}
 		genExhaustiveHist(g, tier, w)
+		genBoundaryHist(g, tier, w)
 	})
 	registerGen("C05", func(g *Gen, tier string, w *bufio.Writer) {
 		n := tierN(tier, 200, 4000)
@@ -517,6 +518,92 @@ func genIterBoundaries(g *Gen, tier string, w *bufio.Writer) {
 				fmt.Fprintf(w, "mk r new %s %s\n", t, &Val{Kind: VBits, Bits: g.randBits(int(n))})
 				fmt.Fprintln(w, "iter r ro")
 				fmt.Fprintln(w, "iter r idx")
+			}
+		}
+	}
+}
+
+// genBoundaryHist: lists and bitlists whose length sits at / just below / just above a packing
+// boundary (32-byte chunk, 256-bit chunk, power-of-two node counts), mutated back and forth
+// across the boundary.
+func genBoundaryHist(g *Gen, tier string, w *bufio.Writer) {
+	reps := tierN(tier, 1, 6)
+	type cfg struct {
+		t    *Ty
+		lens []uint64
+	}
+	var cfgs []cfg
+	for _, lim := range []uint64{256, 257, 512, 600, 1 << 20, 1 << 40} {
+		var ls []uint64
+		for _, n := range []uint64{255, 256, 257, 511, 512, 513} {
+			if n <= lim {
+				ls = append(ls, n)
+			}
+		}
+		cfgs = append(cfgs, cfg{&Ty{Kind: KBitlist, N: lim}, ls})
+	}
+	for _, sz := range []uint64{1, 2, 4, 8, 32} {
+		per := 32 / sz
+		for _, lim := range []uint64{per * 2, per*4 + 1, 1 << 20} {
+			var ls []uint64
+			for _, n := range []uint64{per - 1, per, per + 1, 2*per - 1, 2 * per, 2*per + 1, 4 * per, 4*per + 1} {
+				if n <= lim && n <= 200 {
+					ls = append(ls, n)
+				}
+			}
+			cfgs = append(cfgs, cfg{&Ty{Kind: KList, N: lim, Elem: &Ty{Kind: KUint, N: sz}}, ls})
+		}
+	}
+	for _, lim := range []uint64{2, 3, 4, 5, 8, 9, 1 << 32} {
+		var ls []uint64
+		for _, n := range []uint64{1, 2, 3, 4, 5, 8} {
+			if n <= lim {
+				ls = append(ls, n)
+			}
+		}
+		cfgs = append(cfgs, cfg{&Ty{Kind: KList, N: lim, Elem: &Ty{Kind: KBytesN, N: 32}}, ls})
+		cfgs = append(cfgs, cfg{&Ty{Kind: KList, N: lim, Elem: &Ty{Kind: KContainer, Fields: []*Ty{{Kind: KUint, N: 8}}}}, ls})
+	}
+	for rep := 0; rep < reps; rep++ {
+		for _, c := range cfgs {
+			for _, n := range c.lens {
+				var v *Val
+				if c.t.Kind == KBitlist {
+					bits := g.randBits(int(n))
+					if n > 0 && g.Chance(70) {
+						bits[n-1] = true
+					}
+					v = &Val{Kind: VBits, Bits: bits}
+				} else {
+					v = &Val{Kind: VSeq, Seq: []*Val{}}
+					for k := uint64(0); k < n; k++ {
+						v.Seq = append(v.Seq, g.RandVal(c.t.Elem, 4))
+					}
+				}
+				fmt.Fprintln(w, "begin")
+				fmt.Fprintf(w, "mk r %s %s %s\n", []string{"new", "dec"}[g.Intn(2)], c.t, v)
+				sh := &shadow{name: "r", t: c.t, v: v}
+				pattern := [][]string{{"pop", "pop", "app", "app", "app"}, {"app", "pop", "pop"}, {"pop", "app"}, {"app", "app", "pop", "pop", "pop"}}[g.Intn(4)]
+				for _, op := range pattern {
+					switch op {
+					case "pop":
+						fmt.Fprintln(w, "pop r")
+						if sh.v.Kind == VBits && len(sh.v.Bits) > 0 {
+							sh.v = &Val{Kind: VBits, Bits: sh.v.Bits[:len(sh.v.Bits)-1]}
+						} else if sh.v.Kind == VSeq && len(sh.v.Seq) > 0 {
+							sh.v = &Val{Kind: VSeq, Seq: sh.v.Seq[:len(sh.v.Seq)-1]}
+						}
+					case "app":
+						var x *Val
+						if c.t.Kind == KBitlist {
+							x = &Val{Kind: VBool, B: g.Chance(70)}
+						} else {
+							x = g.RandVal(c.t.Elem, 4)
+						}
+						fmt.Fprintf(w, "app r %s\n", x)
+					}
+					fmt.Fprintln(w, "obs r")
+				}
 			}
 		}
 	}
